@@ -92,6 +92,9 @@ pub fn profile_for(id: &str, rng: &mut Rng) -> Profile {
             p.w_failing = *rng.pick(&[4, 8, 12]);
             p.w_check = 12;
             p.constraints = rng.chance(40);
+            // a third of the histories run VACUUM now and then: what a ROLLBACK left behind must stay
+            // gone (and what it spared must stay) when VACUUM cleans up and forgets the aborted ids
+            p.w_vacuum = *rng.pick(&[0, 0, 3]);
         }
         "C04" => {
             p.max_sessions = rng.range(2, 4) as u32;
@@ -149,6 +152,9 @@ pub fn profile_for(id: &str, rng: &mut Rng) -> Profile {
             // and - in autocommit, on tables without a unique index - updated rows)
             p.max_tables = rng.range(1, 2) as u32;
             p.w_ddl = *rng.pick(&[0, 0, 4]);
+            // the whole-database page audit runs at every quiescent CHECK (what VACUUM empties must
+            // reach the free list); a CREATE TABLE rolled back in a session leaks its root (L1)
+            p.guards.push("create_table_inside_session".into());
             if rng.chance(40) {
                 // wide variant: several leaves of uniform ~0.5 KiB rows, so that VACUUM empties and merges pages
                 // (one table, no UPDATE: cells of this size must stay uniform, open findings D31e / D31b)
